@@ -186,3 +186,35 @@ def _callers_task(group, props, replay, table):
 
 for _g, (_p, _r, _t) in CALLERS.items():
     _callers_task(_g, _p, _r, _t)
+
+
+# ----------------------------------------------------------------------------- call sites of json_extends: only the count / range / naming keys are ever excluded from inheritance (C18)
+NON_INHERITABLE = {"numMarkets", "numAgents", "from", "to", "prefix"}
+
+
+@task("census:json_extends-call-sites", props=["C18"], functions=[], replay="config")
+def t_json_extends_sites():
+    """every call of json_extends in pams expands an entry of the runner's own settings (`whole_json=self.settings`) and excludes from inheritance only keys that say HOW MANY
+    entities a group creates and how they are named - never a parameter of the entity itself (the contract of json_extends is proved for an arbitrary exclusion list)"""
+    src = get_src()
+    obl = []; n = 0
+    for qual, (fn, mod, f) in src.funcs.items():
+        for node in ast.walk(fn):
+            if not (isinstance(node, ast.Call) and isinstance(node.func, ast.Name) and node.func.id == "json_extends"):
+                continue
+            n += 1
+            kw = {k.arg: k.value for k in node.keywords}
+            ex = kw.get("excludes_fields")
+            if ex is None:
+                keys = []; literal = True
+            else:
+                literal = isinstance(ex, (ast.List, ast.Tuple)) and all(isinstance(e, ast.Constant) and isinstance(e.value, str) for e in ex.elts)
+                keys = [e.value for e in ex.elts] if literal else []
+            bad = sorted(set(keys) - NON_INHERITABLE)
+            ok = literal and not bad and not node.args and isinstance(kw.get("whole_json"), ast.Attribute) and ast.unparse(kw["whole_json"]) == "self.settings"
+            obl.append({"name": f"census:json_extends-call-sites/{qual} line {node.lineno}: settings of the runner, exclusion list a literal within {sorted(NON_INHERITABLE)}"
+                                + ("" if ok else f" -- excludes {ast.unparse(ex) if ex is not None else None}, whole_json={ast.unparse(kw['whole_json']) if 'whole_json' in kw else None}"),
+                        "pc": [], "goal": z3.BoolVal(bool(ok)), "kind": "census", "hints": {"function": qual, "excluded": keys}})
+    obl.append({"name": "census:json_extends-call-sites/cover:call sites found", "pc": [], "goal": z3.BoolVal(n >= 3), "kind": "cover"})
+    info = [{"function": "all of pams (calls of json_extends)", "source_sha": None, "where": "pams/**", "paths": None, "assumptions": []}]
+    return {"obligations": obl, "info": info}
